@@ -1,6 +1,6 @@
 (** Properties/C04.v — units form a commutative group with a canonical representation.
     Only statements, each closed by [exact] of a lemma proved elsewhere. *)
-From PintV Require Import Model.UC Model.Pi Proofs.UCProofs Proofs.PiProofs.
+From PintV Require Import Model.UC Model.Pi Proofs.UCProofs Proofs.PiProofs Proofs.PiBasisProofs.
 
 Theorem C04_mul_comm a b : wf a → wf b → uc_mul a b = uc_mul b a.
 Proof. exact (uc_mul_comm a b). Qed.
@@ -62,21 +62,52 @@ Proof. exact uc_pow_keepzero_refuted. Qed.
 (** Buckingham pi: every exponent vector returned by [pi_theorem] (and by the echelon step before
     pint's cosmetic rescaling) has one entry per input quantity and is a DIMENSIONLESS monomial:
     Σ_i v_i · dims(quantity_i) = 0, for every rectangular dimension matrix (no size bound).
-    PARTIAL w.r.t. the property: that the vectors form a BASIS (independent, n − rank of them)
-    is checked per instance by the correspondence harness against an independent rank
-    computation, not proved. *)
+    These two theorems keep their historical [_partial] names (each is one third of the property);
+    that the vectors form a BASIS of the dimensionless monomials is now PROVED below, also for
+    every rectangular matrix: [C04_pi_independent] / [C04_pi_spans] (and the same two for the
+    echelon step, [C04_pi_echelon_independent] / [C04_pi_echelon_spans]). *)
 Theorem C04_pi_dimensionless_partial cols A v :
   rect cols A → v ∈ pi_theorem A cols → length v = length A ∧ lincomb cols v A = repeat 0%Qc cols.
 Proof. exact (pi_theorem_dimensionless cols A v). Qed.
 Theorem C04_pi_echelon_dimensionless_partial cols A v :
   rect cols A → v ∈ pi_raw A cols → length v = length A ∧ lincomb cols v A = repeat 0%Qc cols.
 Proof. exact (pi_raw_dimensionless cols A v). Qed.
+(** the returned vectors are linearly independent: only the trivial combination vanishes *)
+Theorem C04_pi_independent cols A c :
+  rect cols A → length c = length (pi_theorem A cols) →
+  lincomb (length A) c (pi_theorem A cols) = repeat 0%Qc (length A) → c = repeat 0%Qc (length c).
+Proof. exact (pi_theorem_independent cols A c). Qed.
+(** ... and they span: every dimensionless exponent vector is a combination of them *)
+Theorem C04_pi_spans cols A v :
+  rect cols A → length v = length A → lincomb cols v A = repeat 0%Qc cols →
+  ∃ c, length c = length (pi_theorem A cols) ∧ v = lincomb (length A) c (pi_theorem A cols).
+Proof. exact (pi_theorem_spans cols A v). Qed.
+Theorem C04_pi_echelon_independent cols A c :
+  rect cols A → length c = length (pi_raw A cols) →
+  lincomb (length A) c (pi_raw A cols) = repeat 0%Qc (length A) → c = repeat 0%Qc (length c).
+Proof. exact (pi_raw_independent cols A c). Qed.
+Theorem C04_pi_echelon_spans cols A v :
+  rect cols A → length v = length A → lincomb cols v A = repeat 0%Qc cols →
+  ∃ c, length c = length (pi_raw A cols) ∧ v = lincomb (length A) c (pi_raw A cols).
+Proof. exact (pi_raw_spans cols A v). Qed.
 (** pendulum: period T, length L, mass M, gravity g over [time; length; mass] gives T²·g/L *)
 Example C04_pi_pendulum :
   let A := [[mkq 1 1; mkq 0 1; mkq 0 1]; [mkq 0 1; mkq 1 1; mkq 0 1]; [mkq 0 1; mkq 0 1; mkq 1 1];
             [mkq (-2) 1; mkq 1 1; mkq 0 1]] in
   rect 3 A ∧ length (pi_theorem A 3) = 1%nat.
 Proof. split; [repeat constructor | vm_compute; reflexivity]. Qed.
+(** non-vacuity of [C04_pi_spans]: its hypotheses hold for the pendulum matrix and the non-zero
+    vector T²·g/L = [2; -1; 0; 1], and the returned basis is not empty *)
+Example C04_pi_spans_nonvacuous :
+  let A := [[mkq 1 1; mkq 0 1; mkq 0 1]; [mkq 0 1; mkq 1 1; mkq 0 1]; [mkq 0 1; mkq 0 1; mkq 1 1];
+            [mkq (-2) 1; mkq 1 1; mkq 0 1]] in
+  let v := [mkq 2 1; mkq (-1) 1; mkq 0 1; mkq 1 1] in
+  rect 3 A ∧ length v = length A ∧ lincomb 3 v A = repeat 0%Qc 3
+  ∧ is_zero_vec v = false ∧ length (pi_theorem A 3) = 1%nat.
+Proof.
+  split; [repeat constructor|]. split; [reflexivity|]. split; [apply zero_vec_check; vm_compute; reflexivity|].
+  split; vm_compute; reflexivity.
+Qed.
 (** non-vacuity: hypotheses are met by a concrete non-trivial container *)
 Example C04_nonvacuous : wf (mkuc [("meter", mkq 1 1); ("second", mkq (-2) 1)])
   ∧ uc_pow (mkuc [("meter", mkq 1 1); ("second", mkq (-2) 1)]) (mkq 1 2)
